@@ -964,7 +964,7 @@ def run(ctx):
     if tlc_bad > 0 and judge.bad == 0:
         raise vlib.Inconclusive("TLC flags %d observed lines, the byte-level predicate none" % tlc_bad)
     for t in trace:
-        if t["ev"] == "Step" and (t["obs"]["other"] or t["obs"]["self"]):
+        if t["ev"] == "Step" and t["obs"]["other"] and len(t["data"]) > 5:
             ctx.sample({"case": t["id"], "op": t["op"], "data": t["data"], "obs": t["obs"]}, limit=4)
     ctx.log("checked %d delivered lines (%d violating), validated %d steps in TLC (drift %d)" % (
         judge.lines, judge.bad, steps, ndrift))
@@ -997,7 +997,17 @@ def selftest(ctx, trace, maxuser):
         ctx.cov["binding_selftest"] = "skipped (no relayed line in the trace)"
         return
     base = json.loads(json.dumps(cur[:121]))
-    k = max(i for i, t in enumerate(base) if t["ev"] == "Step" and t["obs"]["other"])
+    r0, acc0, nbad0 = validate_chunk(ctx, 110, base, maxuser)
+    drifting = set(rig_common.drift_positions(r0.out))
+
+    def clean(t):
+        return all(c not in ("CR", "LF", "NUL") for ln in t["obs"]["other"] for c, _ in ln)
+    cand = [i for i, t in enumerate(base) if t["ev"] == "Step" and t["obs"]["other"] and not t["all"]
+            and (i + 1) not in drifting and clean(t)]
+    if not cand:
+        ctx.cov["binding_selftest"] = "skipped (every relayed line of the first scenario already differs from the model)"
+        return
+    k = cand[-1]
     res = {}
     # (a) corrupt one class of one observed line
     a = json.loads(json.dumps(base))
@@ -1009,13 +1019,12 @@ def selftest(ctx, trace, maxuser):
     # (c) inject a CR into an observed line: the predicate evaluated by TLC must fire
     c = json.loads(json.dumps(base))
     c[k]["obs"]["other"][0] = c[k]["obs"]["other"][0] + [["CR", 1]]
-    with concurrent.futures.ThreadPoolExecutor(max_workers=4) as ex:
+    with concurrent.futures.ThreadPoolExecutor(max_workers=3) as ex:
         futs = {name: ex.submit(validate_chunk, ctx, 100 + n, tr, maxuser)
-                for n, (name, tr) in enumerate((("corrupt", a), ("drop", b), ("cr", c), ("base", base)))}
+                for n, (name, tr) in enumerate((("corrupt", a), ("drop", b), ("cr", c)))}
         outs = {name: f.result() for name, f in futs.items()}
     for name in ("corrupt", "drop", "cr"):
         res[name] = {"drift": outs[name][1][1], "bad": outs[name][2]}
-    acc0, nbad0 = outs["base"][1], outs["base"][2]
     ok = (res["corrupt"]["drift"] > acc0[1] and res["drop"]["drift"] > acc0[1] and res["cr"]["bad"] > nbad0
           and line_faults(b"PRIVMSG #c :a\rb") and not line_faults(b"ERROR :Closing Link: x") and line_faults(b":nick!user@host"))
     ctx.cov["binding_selftest"] = {"baseline": {"drift": acc0[1], "bad": nbad0}, "mutants": res, "ok": bool(ok)}
